@@ -304,8 +304,11 @@ class Check:
             "ural_src": URAL_SRC,
             "notes": self.notes,
         }
-        os.makedirs(os.path.join(VERIF, "evidence"), exist_ok=True)
-        p = os.path.join(VERIF, "evidence", self.prop + ".json")
+        # runs against a scratch copy (mutant self-tests) must not overwrite the evidence of /repo
+        edir = os.path.join(VERIF, "evidence") if os.path.realpath(URAL_SRC) == "/repo" else os.environ.get(
+            "VERIF_EVIDENCE_DIR", "/var/tmp/verif-evidence-scratch")
+        os.makedirs(edir, exist_ok=True)
+        p = os.path.join(edir, self.prop + ".json")
         with open(p + ".tmp", "w") as f:
             json.dump(ev, f, indent=1, ensure_ascii=True, default=repr)
         os.replace(p + ".tmp", p)
